@@ -3,7 +3,7 @@
    statement ClickHouse (as modelled) rejects in file order, or one that is not re-executable right after
    itself makes gen_reexec fail; checks/c18.py then asks first_bad_streams for the witness. *)
 From Coq Require Import List String NArith ZArith Bool Arith Lia.
-From Qryn Require Import model.Migrate proofs.MigrateProofs proofs.MigrateClusterProofs gen.GenScripts.
+From Qryn Require Import model.Migrate proofs.MigrateProofs proofs.MigrateClusterProofs proofs.MigrateConcProofs gen.GenScripts.
 Import ListNotations.
 Open Scope nat_scope.
 
@@ -147,6 +147,40 @@ Lemma partial_then_recorded_rejected :
   mon_ok [EScript SLog 0 (RFPartial); EInsVer SLog 1 ROk] = false /\
   mon_ok [EScript SLog 0 (RFPartial); EScript SLog 0 ROk; EInsVer SLog 1 ROk] = true.
 Proof. vm_compute. split; reflexivity. Qed.
+
+(* ---- two concurrent starters (single node, the repository's scripts): q creates ver and reads version 0 of
+   log.sql, then p runs the whole initialisation (108 calls), then q goes on from its stale position -- scripts
+   0, 1, 2 are no-ops, script 3 (DROP TABLE IF EXISTS samples_read) removes the table p created with script 4 --
+   and is killed.  The monitor rejects the merged log (a recorded script runs again); p returned nil; every
+   later undisturbed start returns nil, runs no script, finds every version current -- and the schema lacks
+   samples_read for good. *)
+Definition conc_sched : list (bool * outcome) := repeat (true, OOk) 2 ++ repeat (false, OOk) 110 ++ repeat (true, OOk) 7.
+Definition conc_witness : bool :=
+  let c := cfg_single in
+  let '(p, q, d, l) := ch_conc gen_scripts gen_oncluster c conc_sched (proc0 c) (proc0 c) (db0 (ccat cat) (hosts0 1)) in
+  let r := ch_update gen_scripts gen_oncluster c [] d in
+  negb (mon_ok (map snd l)) && returned_nil p
+  && r_ok r && match filter is_script_event (r_log r) with [] => true | _ => false end
+  && forallb (fun k => d_vers (r_db r) k =? List.length (gen_scripts k)) (streams_of c)
+  && negb (list_eqb cat_eqb (d_cat (r_db r)) (d_cat (expected_final gen_scripts gen_oncluster c 1)))
+  && negb (has "samples_read" (c_objs (hd cat0 (d_cat (r_db r)))))
+  && has "samples_read" (c_objs (hd cat0 (d_cat (expected_final gen_scripts gen_oncluster c 1)))).
+Lemma conc_witness_holds : conc_witness = true.
+Proof. vm_compute. reflexivity. Qed.
+
+(* one process alone, in small steps, is the big-step update (computed on the repository's scripts: no
+   failure, a failure after a call, a statement completing on one of two hosts, a failing version write) *)
+Definition solo_same (c : cfg) (n : nat) (os : list outcome) : bool :=
+  let '(p, d, l) := solo_run (ccat cat) (cstmt stmt) (cl_exec cat stmt (exec_ch (cloud c))) (cl_pexec cat stmt (exec_ch (cloud c)))
+                      (cl_scripts gen_scripts gen_oncluster c) c 400 (proc0 c) os (db0 (ccat cat) (hosts0 n)) in
+  let r := ch_update gen_scripts gen_oncluster c os (db0 (ccat cat) (hosts0 n)) in
+  Bool.eqb (returned_nil p) (r_ok r) && list_eqb oevent_eqb (map (abs_event gen_sids) l) (map (abs_event gen_sids) (r_log r))
+  && list_eqb cat_eqb (d_cat d) (d_cat (r_db r)) && vers_eqb (vers_list d) (vers_list (r_db r)).
+Lemma solo_is_update_examples :
+  forallb (fun c => solo_same c 2 []) [cfg_single; cfg_clustered; {| cloud := true; dist := true; clustered := true |}; {| cloud := true; dist := false; clustered := false |}]
+  && solo_same cfg_single 1 (fault_at 38 OAfter) && solo_same cfg_clustered 2 (fault_at 40 (OPartial [false; true]))
+  && solo_same cfg_clustered 3 (fault_at 41 OBefore) && solo_same cfg_single 1 (fault_at 1 OBefore) = true.
+Proof. vm_compute. reflexivity. Qed.
 
 (* the hypothesis of noop_when_current is met by a non-trivial database: the one an uninterrupted run of
    the clustered, replicated configuration (all six streams, 75 statements) ends with *)
